@@ -7,6 +7,7 @@ delivers the datagram whole. Parsing the kernel's ancillary data never reads out
 contents."  — for all payloads, all segment sizes (any sign), all ancillary buffers.
 -/
 import Nebula.Lemmas.Udprecv
+import Nebula.Lemmas.UdprecvEncode
 
 namespace Nebula.Props.C27
 open Nebula.Udprecv Nebula.Spec.Udprecv Nebula.Lemmas.Udprecv
@@ -116,5 +117,27 @@ theorem cmsg_terminates (nil : Bool) (ctrl : List UInt8) :
 theorem cmsg_short_zero (nil : Bool) (ctrl : List UInt8) (h : ctrl.length < 16 ∨ nil = true) :
     parse nil ctrl = .gso 0 0 := by
   simp [parse, sizeofCmsghdr, h]
+
+/-- Functional correctness on what the kernel produces: for any sequence of well-formed ancillary messages
+laid out the way `CMSG_SPACE`/`CMSG_LEN` prescribe (`Spec.Udprecv.encode`; fields within their wire widths,
+every UDP_GRO message carrying its 4-byte value), `parseRecvCmsg` visits every message and returns the value
+of the last UDP_GRO message as a signed 32-bit integer, or 0 if there is none. -/
+theorem cmsg_kernel_formed (msgs : List Cmsg) (hw : ∀ m ∈ msgs, MsgOK m) :
+    parse false (encode msgs) = .gso (groOf msgs) msgs.length := by
+  cases msgs with
+  | nil => simp [parse, encode, sizeofCmsghdr, groOf]
+  | cons m ms =>
+    have hl : ¬ ((encode (m :: ms)).length < sizeofCmsghdr ∨ false = true) := by
+      have := encodeOne_length m
+      simp [encode, sizeofCmsghdr] at *; omega
+    unfold parse
+    rw [if_neg hl]
+    have := walk_encode [] (m :: ms) 0 0 hw
+    simpa [groOf_eq] using this
+
+example : MsgOK { level := 17, type := 104, data := [0x78, 0x05, 0, 0] } := by
+  simp [MsgOK]
+example : parse false (encode [{ level := 0, type := 1, data := [0x5a] }, { level := 17, type := 104, data := [0x78, 0x05, 0, 0] }])
+    = .gso 1400 2 := by decide +kernel
 
 end Nebula.Props.C27
